@@ -114,13 +114,21 @@ def packLocs : List Loc → List Lbl × List (Int × Int × Int)
     | .index i j k => (.I :: ls, (i, j, k) :: ds)
     | .multi m => (.M m.length :: ls, m ++ ds)
 
+/-- `next(locsIter)` n times: the n triples and what is left; `none` = StopIteration -/
+def takeExact {α : Type} : Nat → List α → Option (List α × List α)
+  | 0, ds => some ([], ds)
+  | _ + 1, [] => none
+  | n + 1, d :: ds => (takeExact n ds).map (fun p => (d :: p.1, p.2))
+
 /-- `_unpackLocationsV2`; `none` = StopIteration (data exhausted) -/
 def unpackLocs : List Lbl → List (Int × Int × Int) → Option (List Loc)
   | [], _ => some []
   | .N :: ls, _ :: ds => (unpackLocs ls ds).map (Loc.none :: ·)
   | .C :: ls, (x, y, z) :: ds => (unpackLocs ls ds).map (Loc.coord x y z :: ·)
   | .I :: ls, (i, j, k) :: ds => (unpackLocs ls ds).map (Loc.index i j k :: ·)
-  | .M n :: ls, ds => if n ≤ ds.length then (unpackLocs ls (ds.drop n)).map (Loc.multi (ds.take n) :: ·) else none
+  | .M n :: ls, ds => match takeExact n ds with
+    | none => none
+    | some (m, rest) => (unpackLocs ls rest).map (Loc.multi m :: ·)
   | _ :: _, [] => none
 
 /-! ## child order -/
@@ -159,5 +167,155 @@ def ancestorsGo : List (Nat × Nat) → List (Nat × Nat) → List (Option Nat)
     parent :: ancestorsGo rest stack3
 
 def ancestors (rows : List (Nat × Nat)) : List (Option Nat) := ancestorsGo rows []
+
+/-! ## one database file holding several statepoints -/
+
+/-- `"{:0>2}".format(n)`: at least two digits -/
+def pad2 (n : Nat) : String := if n < 10 then "0" ++ toString n else toString n
+
+/-- `getH5GroupName(cycle, timeNode, statePointName)`: `"c{:0>2}n{:0>2}{}".format(cycle, timeNode, statePointName or "")` -/
+def groupName (cycle node : Nat) (label : String) : String := "c" ++ pad2 cycle ++ "n" ++ pad2 node ++ label
+
+/-- layout-borne per-row data that are not part of the tree shape: `layout/material` (class-name key) and
+`layout/temperatures` (codes of Tinput, Thot) -/
+abbrev Extra := Nat × Int × Int
+
+/-- what one statepoint group `cXXnYY[label]` holds: the layout datasets (rows incl. locators and grid keys, extras)
+and the per-class parameter groups (`P`: whatever `_writeParams` produced, C05's subject) -/
+structure Snap (P : Type) where
+  rows : List Row
+  extras : List Extra
+  params : P
+
+/-- the HDF5 file as a map from group name to statepoint (insertion order kept) -/
+abbrev File (P : Type) := List (String × Snap P)
+
+/-- `h5db[name]` (`none` = KeyError) -/
+def File.get {P : Type} (f : File P) (name : String) : Option (Snap P) :=
+  match f with
+  | [] => none
+  | (k, s) :: r => if k = name then some s else File.get r name
+
+/-- `Database.writeToDB` at group `name`: `getH5Group` creates the group when it is absent and everything is written;
+when the group is there already `Layout.writeToDB` returns early ("already written the layout") and `_writeParams`
+raises ValueError at its first dataset ("This time node should have been empty") — `none`, the file is unchanged. -/
+def File.write {P : Type} (f : File P) (name : String) (s : Snap P) : Option (File P) :=
+  match f.get name with
+  | some _ => none
+  | none => some (f ++ [(name, s)])
+
+/-- a history of writes; a refused write ends the history (`none`) -/
+def File.writeAll {P : Type} (f : File P) : List (String × Snap P) → Option (File P)
+  | [] => some f
+  | (k, s) :: r => match f.write k s with
+    | none => none
+    | some f' => File.writeAll f' r
+
+/-- a history in which refused writes are skipped (what a run that catches the ValueError is left with) -/
+def File.writeSkip {P : Type} (f : File P) : List (String × Snap P) → File P
+  | [] => f
+  | (k, s) :: r => match f.write k s with
+    | none => File.writeSkip f r
+    | some f' => File.writeSkip f' r
+
+/-! ## parameters on load: `_initComps` → `_readParams` → `_assignBlueprintsParams` -/
+
+/-- key of the `groupedComps` dictionary: `_initComps` files every object under its class NAME (the string stored in
+`layout/type`); `_assignBlueprintsParams` asks for the class OBJECTS `Block` and `Assembly` -/
+inductive GKey
+  | name (ty : Nat)
+  | cls (c : Nat)
+  deriving DecidableEq, Repr
+
+/-- `groupedComps[compType].append(comp)` over the rows, in layout order (positions of the objects) -/
+def groupAppend (g : List (GKey × List Nat)) (k : GKey) (i : Nat) : List (GKey × List Nat) :=
+  match g with
+  | [] => [(k, [i])]
+  | (k', l) :: r => if k' = k then (k', l ++ [i]) :: r else (k', l) :: groupAppend r k i
+
+def initGroupsGo (g : List (GKey × List Nat)) (i : Nat) : List Nat → List (GKey × List Nat)
+  | [] => g
+  | t :: r => initGroupsGo (groupAppend g (.name t) i) (i + 1) r
+
+/-- the `groupedComps` that `Layout._initComps` returns -/
+def initGroups (tys : List Nat) : List (GKey × List Nat) := initGroupsGo [] 0 tys
+
+/-- `groupedComps[key]` on a `defaultdict(list)`: a missing key gives the empty list -/
+def lookupD (g : List (GKey × List Nat)) (k : GKey) : List Nat :=
+  match g with
+  | [] => []
+  | (k', l) :: r => if k' = k then l else lookupD r k
+
+/-- `_assignBlueprintsParams` for one parameter: for compType in (Block, Assembly): for comp in groupedComps[compType]:
+`val = getattr(design, pName)`; `if val is not None: comp.p[pName] = val` — `vals[i]` is object i's value, `bp i` its
+design's value -/
+def assignBlueprints {V : Type} (g : List (GKey × List Nat)) (classes : List Nat) (bp : Nat → Option V) (vals : List V) : List V :=
+  classes.foldl (fun vs c => (lookupD g (.cls c)).foldl (fun vs i => match bp i with
+    | some b => vs.set i b
+    | none => vs) vs) vals
+
+/-- one object's value of one parameter through `Database.load`: the constructor default, overwritten by
+`_readParams` when the class group holds a dataset for the parameter -/
+def readParam {V : Type} (dflt : V) (stored : Option V) : V := stored.getD dflt
+
+/-! ## the layout as the COLUMNS the file holds -/
+
+/-- the datasets of one `layout` group -/
+structure Cols where
+  ty : List Nat
+  serial : List Nat
+  nKids : List Nat
+  idx : List Nat
+  gridIndex : List (Option Nat)
+  gridTab : List Nat
+  lbls : List Lbl
+  locData : List (Int × Int × Int)
+  deriving Repr, DecidableEq
+
+/-- `Layout.__init__(comp=...)` + `Layout.writeToDB`: the columns written for a list of rows -/
+def colsOfRows (rows : List Row) : Cols :=
+  let labs := rows.map (·.1)
+  let keys := labs.map (·.grid)
+  let pk := packLocs (labs.map (·.loc))
+  { ty := labs.map (·.ty), serial := labs.map (·.serial), nKids := rows.map (·.2), idx := indexInData (labs.map (·.ty)),
+    gridIndex := gridIndex keys, gridTab := gridTable keys [], lbls := pk.1, locData := pk.2 }
+
+/-- `zip` of the columns back into rows (`_initComps` zips type, serialNum, numChildren, location, gridIndex;
+`zip` stops at the shortest column) -/
+def zipRows : List Nat → List Nat → List Nat → List Loc → List (Option Nat) → List Row
+  | t :: ts, s :: ss, n :: ns, l :: ls, g :: gs => (⟨t, s, l, g⟩, n) :: zipRows ts ss ns ls gs
+  | _, _, _, _, _ => []
+
+/-- `self.gridParams[gridIndex]` for every row; `none` = IndexError -/
+def lookupGrids (tab : List Nat) : List (Option Nat) → Option (List (Option Nat))
+  | [] => some []
+  | none :: r => (lookupGrids tab r).map (none :: ·)
+  | some i :: r => match tab[i]? with
+    | none => none
+    | some g => (lookupGrids tab r).map (some g :: ·)
+
+/-- `Layout._readLayout` + `_initComps`: unpack the locations, give every object the grid parameters its `gridIndex`
+points at; `none` = exception (location data exhausted, grid index outside the table) -/
+def rowsOfCols (c : Cols) : Option (List Row) :=
+  match unpackLocs c.lbls c.locData with
+  | none => none
+  | some locs =>
+    match lookupGrids c.gridTab c.gridIndex with
+    | none => none
+    | some grids => some (zipRows c.ty c.serial c.nKids locs grids)
+
+/-! ## `Component.__lt__` -/
+
+/-- `Component.__lt__`: bounding-circle outer diameter, ties broken by the inner diameter (cold dimensions; the two
+getters are parameters, their values enter as the exact rationals of the doubles) -/
+def compLt (a b : Rat × Rat) : Bool := if a.1 = b.1 then decide (a.2 < b.2) else decide (a.1 < b.1)
+
+def insBy (lt : Nat → Nat → Bool) (x : Nat) : List Nat → List Nat
+  | [] => [x]
+  | y :: r => if lt y x then y :: insBy lt x r else x :: y :: r
+
+/-- the order `sorted(components)` puts the components of a block in (stable), as positions -/
+def sortIdxComp (keys : List (Rat × Rat)) : List Nat :=
+  (List.range keys.length).foldr (insBy (fun y x => compLt (keys.getD y (0, 0)) (keys.getD x (0, 0)))) []
 
 end ArmiVerif.Layout
